@@ -30,6 +30,7 @@ func (db *DB) acquireSnapshot() *snapshotElement {
 	defer db.snapsMu.Unlock()
 
 	seq := db.getSeq()
+	verifEvent(500, seq, 0)
 
 	if e := db.snapsList.Back(); e != nil {
 		se := e.Value.(*snapshotElement)
@@ -49,6 +50,7 @@ func (db *DB) acquireSnapshot() *snapshotElement {
 func (db *DB) releaseSnapshot(se *snapshotElement) {
 	db.snapsMu.Lock()
 	defer db.snapsMu.Unlock()
+	verifEvent(501, se.seq, 0)
 
 	se.ref--
 	if se.ref == 0 {
